@@ -23,7 +23,8 @@ EXPLANATION = (
     ' Third round: a literal table indexed by a computed value must be total (R14.6 partial-lookup).'
     " Fifth round: feature members read on the matcher's per-variable tables are judged like reads on .feature."
     ' Seventh round: one-shot iterators bound at module level (R14.1); reading a binding back is one substitution step (instantiation rule of C03 / C04 / C06).'
-    ' Eighth round: no function of the grammar modules asks depccg.lang for the selected language while it runs (R14.1).')
+    ' Eighth round: no function of the grammar modules asks depccg.lang for the selected language while it runs (R14.1).'
+    ' Ninth and tenth round: the erasure rule of C13 (every atom, left and right) runs under R14.4.')
 TRUSTED = ['CPython ast', 'sa/pysym.py path walker', 'frozen dataclasses (checked by C13)', 'rule table DESIGN.md C14']
 
 EN, JA, UNI, CAT = rg.EN, rg.JA, ru.UNI, 'depccg/cat.py'
